@@ -376,6 +376,9 @@ fn report(t: &str, ins: &[Insertion], rules: Vec<(String, String, common::Json)>
 
 pub fn run(s: &mut Session) {
     let cases = s.args.budget(2_000, 120_000);
+    if !crate::want(s, "comments") {
+        return;
+    }
     s.part(
         "comments",
         "generated texts / documents (1-3 items) with 1-3 `#` comments put between items, after `{` `(` and separators, before `}` `)`, before a line break inside a record or an attribute body, at the start, at the end (with and without a final line break), rarely after a blank; comment texts hold quotes, braces, backslashes and multi-byte characters. (1) when T with the comments deleted parses, parse_recognize(T, allow_comments) gives exactly that value, and a comment-free text does not depend on the flag; (2) when D with the comments deleted is read as a document, parse_recon_document(D, allow_comments) read in one piece gives the same items, and they equal those of parse_recognize on `{D}`; (3) the same document cut at EVERY position in or next to a comment (from the byte before `#` to two bytes after the end of the comment, inside its multi-byte characters too) and at 24 other positions, and in 4 random multi-cut runs, gives the one-read result; non-trivial when the text with comments parses; distinct by text",
